@@ -133,7 +133,9 @@ def sites(root: I.El, spec: G.ModelSpec) -> list[tuple]:
                 out.append(("pi-gap", i, g))
         for j, k in enumerate(e.kids):
             if isinstance(k, str) and k:
-                out.append(("cdata", i, j))
+                if "\r" not in k:
+                    # (a carriage return inside a CDATA section is a line end and would be normalised: not the same document)
+                    out.append(("cdata", i, j))
                 out.append(("charref", i, j))
                 if len(k) >= 2:
                     out.append(("comment-in-text", i, j))
